@@ -81,7 +81,7 @@ REQUIRED = {
     'sin-inverse': 30, 'sin-linear': 30, 'general': 30, 'general-get': 30,
     'general-callable': 30, 'shape': 100, 'get-far-integer-box': 100,
     'sum-long': 40}
-REQUIRED_EVENTS = {'default-box': 5}      # a = b = None was exercised
+REQUIRED_EVENTS = {'default-box': 5, 'gets-full-long-mode': 5}      # a = b = None was exercised
 ASSUMPTIONS = [
     'numpy.polynomial (polyval, chebval, polyint, chebint, polyder, chebder) '
     'evaluated in numpy longdouble (64-bit mantissa) is the reference',
@@ -863,6 +863,24 @@ def case_dense(case, ctx, teneva, rng):
                 if well(ctx, Zt, m, 'func_gets'):
                     ctx.close('tt-dense-agree', Zd[tuple(I.T)], tt_at(Zt, I),
                         2 * tg, 'func_gets_full vs full(func_gets)')
+
+    # --- the same on a new grid with one long mode (130..600 nodes: index
+    # arithmetic past the int8 / uint8 ranges, nodes much denser than the
+    # coefficients), the other modes short
+    if rng.random() < 0.35:
+        ml = [2] * d
+        ml[int(rng.integers(d))] = int(rng.integers(130, 256)) if \
+            rng.random() < 0.6 else int(rng.integers(256, 601))
+        Zl = teneva.func_gets_full(Ad, fa, fb, list(ml))
+        if ctx.check('shape', isinstance(Zl, np.ndarray) and
+                Zl.shape == tuple(ml), f'func_gets_full: shape '
+                f'{getattr(Zl, "shape", None)} for m={ml}'):
+            I = ref.all_indices(ml)
+            fG, fGabs = mdl.f(grid_points(mdl, ml, I))
+            ctx.close('gets-full', Zl[tuple(I.T)], fG, mdl.tol_val(fGabs,
+                [0.] * d), 'func_gets_full vs f on a new grid with a long '
+                'mode', m=ml, n=n)
+            ctx.event('gets-full-long-mode')
 
     # --- func_sum_full: exact for a = -b, ValueError otherwise
     ex, exabs = mdl.integral()
